@@ -156,13 +156,14 @@ _vbi_pfc_demux_decode		(vbi_pfc_demux *	dx,
 			col = bp + 4; /* 2 pmag, 1 bp, 1 bs */
 			bs = vbi_unham8 (buffer[col - 1]);
 		} else {
-			while (FILLER_BYTE ==
-			       (bs = vbi_unham8 (buffer[col++]))) {
+			do {
 				if (col >= 42) {
 					/* No more data in this packet. */
 					return TRUE;
 				}
-			}
+
+				bs = vbi_unham8 (buffer[col++]);
+			} while (FILLER_BYTE == bs);
 		}
 
 		if (BLOCK_SEPARATOR != bs) {
